@@ -11,7 +11,7 @@ contract(f"{BH}:LT.encode_to_int", props=P + ["C20"], shapes={"self": LTS}, requ
 contract(f"{BH}:BasicHeader.encode_to_int", props=P + ["C20"], shapes={"self": BASIC},
          requires=["basic_header_valid(self)"], ensures={"wire": "result == basic_header_int(self)"},
          canary={"rhl_dropped": "result == basic_header_int(self) - self.rhl"}, **S)
-contract(f"{BH}:BasicHeader.encode_to_bytes", props=P + ["C20"], shapes={"self": BASIC},
+contract(f"{BH}:BasicHeader.encode_to_bytes", returns=T.bytes_n(4), props=P + ["C20"], shapes={"self": BASIC},
          requires=["basic_header_valid(self)"],
          ensures={"wire": "result == basic_header_int(self).to_bytes(4, 'big')", "len4": "len(result) == 4"}, **S)
 contract(f"{BH}:BasicHeader.decode_from_int", props=P + ["C20"], shapes={"value": T.int(0, 2 ** 32 - 1)},
@@ -43,7 +43,7 @@ contract(f"{SAP}:TrafficClass.decode_from_int", props=P, shapes={"tc": T.int(0, 
 contract(f"{CH}:CommonHeader.encode_to_int", props=P, shapes={"self": COMMON}, requires=["common_header_valid(self)"],
          ensures={"wire": "result == common_header_int(self)"},
          canary={"pl_shifted": "result == common_header_int(self) + self.pl"}, **S)
-contract(f"{CH}:CommonHeader.encode_to_bytes", props=P, shapes={"self": COMMON}, requires=["common_header_valid(self)"],
+contract(f"{CH}:CommonHeader.encode_to_bytes", returns=T.bytes_n(8), props=P, shapes={"self": COMMON}, requires=["common_header_valid(self)"],
          ensures={"wire": "result == common_header_int(self).to_bytes(8, 'big')"}, **S)
 contract(f"{CH}:CommonHeader.decode_from_int", props=P + ["C04"], shapes={"header": T.int(0, 2 ** 64 - 1)}, returns=COMMON,
          raises={"ValueError": "bits(header, 60, 4) > 3 or bits(header, 52, 4) > 6 or not hst_known(bits(header, 52, 4), bits(header, 48, 4))"},
@@ -62,7 +62,7 @@ contract(f"{CH}:CommonHeader.decode_from_bytes", props=P + ["C04"], shapes={"hea
 # ---------------------------------------------------------------- GN address
 contract(f"{GA}:GNAddress.encode_to_int", props=P, shapes={"self": GNADDR},
          ensures={"wire": "result == gn_addr_int(self)"}, canary={"st_shift": "result == gn_addr_int(self) + self.st.value"}, **S)
-contract(f"{GA}:GNAddress.encode", props=P, shapes={"self": GNADDR},
+contract(f"{GA}:GNAddress.encode", returns=T.bytes_n(8), props=P, shapes={"self": GNADDR},
          ensures={"wire": "result == gn_addr_int(self).to_bytes(8, 'big')"}, **S)
 contract(f"{GA}:GNAddress.decode", props=P + ["C04"], shapes={"data": T.bytes(0, 2000)},
          raises={"flexstack.geonet.exceptions:DecodeError": "len(data) < 8",
@@ -75,7 +75,7 @@ contract(f"{PV}:TST.encode", props=P + ["C08"], shapes={"self": TST}, requires=[
          ensures={"id": "result == self.msec"}, **S)
 contract(f"{PV}:TST.decode", props=P + ["C08"], shapes={"data": T.int(0, 2 ** 200)},
          ensures={"low32": "result.msec == data % 2 ** 32"}, **S)
-contract(f"{PV}:LongPositionVector.encode", props=P, shapes={"self": LPV}, requires=["lpv_valid(self)"],
+contract(f"{PV}:LongPositionVector.encode", returns=T.bytes_n(24), props=P, shapes={"self": LPV}, requires=["lpv_valid(self)"],
          ensures={"wire": "result == lpv_int(self).to_bytes(24, 'big')"},
          canary={"unsigned_only": "self.latitude >= 0"}, **S)
 contract(f"{PV}:LongPositionVector.encode_to_int", props=P, shapes={"self": LPV}, requires=["lpv_valid(self)"],
@@ -85,7 +85,7 @@ contract(f"{PV}:LongPositionVector.decode", props=P + ["C04"], shapes={"data": T
                  "ValueError": "len(data) >= 24 and st_field(data, 0) > 12"},
          ensures={"fields": "lpv_of_bytes_ok(result, data, 0)", "valid": "lpv_valid(result)"},
          canary={"lat_unsigned": "result.latitude == be(data, 12, 4)"}, **S)
-contract(f"{PV}:ShortPositionVector.encode", props=P, shapes={"self": SPV}, requires=["spv_valid(self)"],
+contract(f"{PV}:ShortPositionVector.encode", returns=T.bytes_n(20), props=P, shapes={"self": SPV}, requires=["spv_valid(self)"],
          ensures={"wire": "result == spv_int(self).to_bytes(20, 'big')"}, **S)
 contract(f"{PV}:ShortPositionVector.encode_to_int", props=P, shapes={"self": SPV}, requires=["spv_valid(self)"],
          ensures={"wire": "result == spv_int(self)"}, **S)
